@@ -173,6 +173,39 @@ def h01e_shards(tier):
     return [{"len": k, "_timeout": 120 if k <= 6 else 600, "_path_timeout": 30} for k in range(0, top + 1)]
 
 
+# ---------------------------------------------------------------- H01f compressed wire at the real limits
+
+def h01f(l1: bytes, l2: bytes, l3: bytes, l4: bytes, k: int) -> bool:
+    """A name of two labels followed by a pointer into an earlier two-label name, label lengths per shard, any content:
+    the decoder returns exactly the reference's labels (<= 255 octets in all) or raises a FormError exactly when the total exceeds 255."""
+    first = bytes([len(l1)]) + l1 + bytes([len(l2)]) + l2 + b"\x00"
+    targets = [0, 1 + len(l1), 2 + len(l1) + len(l2)]
+    off = len(first)
+    buf = first + bytes([len(l3)]) + l3 + bytes([len(l4)]) + l4 + bytes([0xC0 + targets[k] // 256, targets[k] % 256])
+    total = (1 + len(l3)) + (1 + len(l4)) + [(1 + len(l1)) + (1 + len(l2)) + 1, (1 + len(l2)) + 1, 1][k]
+    try:
+        with step_budget(dns.wirebase.Parser, "seek", 8):
+            n, used = dns.name.from_wire(buf, off)
+    except dns.exception.FormError:
+        hit("refused")
+        return total > 255
+    hit("accepted")
+    if total > 255:
+        return False
+    want = [l3, l4] + [[l1, l2, b""], [l2, b""], [b""]][k]
+    return list(n.labels) == want and used == len(buf) - off and valid_labels(n.labels)
+
+
+def h01f_pre(l1, l2, l3, l4, k):
+    # (label lengths are fixed per shard: slicing a buffer at a symbolic index would enumerate the lengths one path at a time)
+    a1, a2, a3, a4 = S("lens")
+    return len(l1) == a1 and len(l2) == a2 and len(l3) == a3 and len(l4) == a4 and 0 <= k <= 2
+
+
+H01F_SHAPES = [(63, 63, 63, 59), (63, 63, 63, 60), (63, 63, 63, 61), (63, 63, 63, 62), (63, 63, 63, 63), (1, 1, 1, 1), (63, 1, 1, 63), (1, 63, 63, 1),
+               (62, 63, 63, 61), (61, 63, 63, 63), (60, 63, 63, 63)]
+
+
 # ---------------------------------------------------------------- H01d compressed wire, shared table
 
 def _ref_suffix_at(msg, pos, labels):
@@ -385,6 +418,10 @@ HARNESSES = [
                      "dns.wirebase.Parser.restore_furthest", "dns.name._validate_labels"],
             bound="every buffer of length <= 6 (quick) / 8 (thorough), every start offset",
             stubs=[], outside="longer buffers (pointer chains longer than the buffer allows)"),
+    Harness("H01f", h01f, h01f_pre, lambda tier: [{"lens": r, "_timeout": 600, "_path_timeout": 120} for r in H01F_SHAPES], kind="universal over label contents and the pointer target; finite over length shapes",
+            encodes=["dns.name.from_wire", "dns.name.from_wire_parser", "dns.wirebase.Parser.seek", "dns.wirebase.Parser.get_counted_bytes"],
+            bound="two symbolic labels + a pointer to any label start of an earlier name of two symbolic labels; 11 length shapes (decoded totals 7 .. 257 octets, i.e. 253, 254, 255, 256, 257 around the limit), every label octet symbolic, pointer target symbolic",
+            stubs=[], outside="longer chains; pointers into the middle of a label (H01e)"),
     Harness("H01g", h01g, h01g_pre, h01g_shards, kind="universal",
             encodes=["dns.name.Name.concatenate", "dns.name.Name.derelativize", "dns.name.Name.relativize", "dns.name.Name.parent",
                      "dns.name.Name.split", "dns.name.Name.canonicalize", "dns.name.Name.__add__"],
